@@ -16,6 +16,8 @@ import YaegiVerif.Generated.C07
       PATH = bin (callBin) | fv (`call`, the function value is a host function): what the callee's parameters receive
       against Go's packing (nil variadic slice without variadic arguments, the slice itself with `...`, also when deferred)
    recvbind                        → y=<ok|bad:late-receiver> g=ok   (method wrapper: receiver read when the wrapper is made)
+   ifacerecv                       → y=<ok|bad:receiver-bound-at-conversion|bad:receiver-follows-variable> g=ok
+                                     (method wrappers of a conversion to a host interface: the held value, reached at each call)
    reenter DEPTH CLOSURE           → y=<ok|bad:shared-frame> g=ok   (one wrapper value, nested invocations)
    wrap NUMRET NPARAMS CLOSURE     → y=<ok|bad:…> g=ok   (the MakeFunc wrapper against the in-script call, on probe frames) -/
 namespace YaegiVerif.Driver.C07
@@ -165,12 +167,28 @@ def handlePack (viaBin isVariadic ellipsis deferred : Bool) (nFixed nArgs : Nat)
   | none => "y=ok g=ok"
   | some b => s!"y=bad:{b} g=ok"
 
-/-- `mv := x.M; x = other; mv()`: the model of the method wrapper run with the regenerated fact -/
+def probeGet : FnDef := { numRet := 1, params := [.plain], nLocals := 0, body := fun _ fr => setAt fr 0 (fr.getD 1 .nil) }
+def probeHeap (n : Int) : Nat → Rep := fun a => if a = 0 then .int n else .nil
+
+/-- `mv := x.M; x = other; mv()` and `p := &T{1}; mv := p.Get; *p = T{2}; mv()`: the model of the method wrapper run with the
+    regenerated facts against Go's rule -/
 def handleRecvBind : String :=
-  let getRecv : FnDef := { numRet := 1, params := [.plain], nLocals := 0, body := fun _ fr => setAt fr 0 (fr.getD 1 .nil) }
   let noCall : Rep → List Rep → List Rep := fun _ _ => []
-  if methodWrapperCall G getRecv noCall (.int 1) (.int 2) [] == innerCall getRecv noCall [.int 1] then "y=ok g=ok"
-  else "y=bad:late-receiver g=ok"
+  let run (src : RecvSrc) := methodWrapperCall G probeGet noCall false (probeHeap 1) (probeHeap 2) src []
+  let want (src : RecvSrc) := innerCall probeGet noCall [recvSpec false (probeHeap 1) (probeHeap 2) src]
+  let srcs := [RecvSrc.var (.int 1) (.int 2), .var (.ptr (.int 0)) (.ptr (.int 0))]
+  if srcs.all (fun s => run s == want s) then "y=ok g=ok" else "y=bad:late-receiver g=ok"
+
+/-- `p := &T{1}; var s I = p; *p = T{2}; p = &T{3}; s.Get()` (and the same with a struct held by the interface): the method
+    wrappers of an interface conversion -/
+def handleIfaceRecv : String :=
+  let noCall : Rep → List Rep → List Rep := fun _ _ => []
+  let run (xConv xNow : Rep) := methodWrapperCall G probeGet noCall false (probeHeap 1) (probeHeap 2) (ifaceRecvSrcY G xConv xNow) []
+  let want (xConv : Rep) := innerCall probeGet noCall [bindRecvY (probeHeap 2) false xConv]
+  if !(run (.ptr (.int 0)) (.ptr (.int 0)) == want (.ptr (.int 0))) then "y=bad:receiver-bound-at-conversion g=ok"
+  else if !(run (.int 5) (.int 6) == want (.int 5)) || !(run (.ptr (.int 0)) (.ptr (.int 1)) == want (.ptr (.int 0))) then
+    "y=bad:receiver-follows-variable g=ok"
+  else "y=ok g=ok"
 
 def handleCall (hasRecv recvIsIface recvInSig isVariadic ellipsis deferred : Bool) (params : List String) (velem : String)
     (args : List ArgIn) (ctx : Ctx) (nOut : Nat) : String :=
@@ -248,6 +266,7 @@ def handle (args : List Sexp) : String :=
      | some iv, some el, some df, some nf, some na => handlePack (path == "bin") iv el df nf na
      | _, _, _, _, _ => "bad-op")
   | [.atom "recvbind"] => handleRecvBind
+  | [.atom "ifacerecv"] => handleIfaceRecv
   | [.atom "reenter", dp, cl] =>
     (match dp.nat?, cl.bool? with
      | some dp, some cl => handleReenter dp cl
